@@ -304,6 +304,17 @@ func (vc *VC) effectsOfCall(eff *Effects, pkg *Pkg, c *ast.CallExpr, s tsubst, v
 					eff.W[k.Name] = k
 				}
 			}
+		case "clear":
+			if t := info.TypeOf(c.Args[0]); t != nil {
+				switch u := substType(t, s).Underlying().(type) {
+				case *types.Map:
+					k := vc.mapKind(u)
+					eff.W[k.Name] = k
+				case *types.Slice:
+					k := vc.sliceKind(u.Elem())
+					eff.W[k.Name] = k
+				}
+			}
 		case "len", "cap":
 			if t := info.TypeOf(c.Args[0]); t != nil {
 				if m, ok := substType(t, s).Underlying().(*types.Map); ok {
